@@ -1,5 +1,5 @@
 #!/bin/sh
-# thorough tier, after the quick analysis passed: (1) the same rules on the second build configuration that selects different source files
+# thorough tier, after the quick analysis passed (steps 1–2 decide the exit status, step 3 is informational): (1) the same rules on the second build configuration that selects different source files
 # (build tag nocgo selects signature_nocgo.go; the repository does not type-check with CGO_ENABLED=0 alone or for 32-bit targets, so there
 # are no such runs), in its own process; (2) the mutant self test of the property: every mutant under /verif/mutations/<Cxx>/ and every
 # caught seeded change for <Cxx> is applied to a scratch copy of /repo (outside /repo and /verif, removed at once), must still build, and
@@ -18,9 +18,15 @@ log=$(mktemp /tmp/lemoselftest.XXXXXX)
 if [ -d "mutations/$PROP" ]; then
   ./tools/selftest.sh "$PROP" 4 | tee "$log" || st=1
 fi
-python3 - "$PROP" "$log" "$cfgs" <<'PY'
+# (3) informational: the kept behaviour-preserving refactors (notes/benign) must leave this property's check silent. The outcome is recorded in
+# the evidence; it does not change the exit status (it measures the checker, not the repository).
+blog=$(mktemp /tmp/lemobenign.XXXXXX)
+./tools/benign_check.sh 4 "$PROP" > "$blog" 2>&1 || true
+grep -v "^BENIGN-QUIET" "$blog" | sed 's/^VIOLATED/benign-variant-reported/; s/^UNDECIDED/benign-variant-undecided/' | head -20
+python3 - "$PROP" "$log" "$cfgs" "$blog" <<'PY'
 import json, sys, re
 prop, log, cfgs = sys.argv[1], sys.argv[2], sys.argv[3]
+btxt = open(sys.argv[4]).read()
 p = '/verif/evidence/%s.json' % prop
 try:
     d = json.load(open(p))
@@ -32,7 +38,9 @@ d['tier'] = 'thorough'
 d['coverage']['extra_build_configurations'] = cfgs.split()
 d['coverage']['selftest'] = {'mutants_applied': caught + missed, 'reported': caught, 'not_reported': missed, 'stale_skipped': stale,
                              'samples': re.findall(r'^MUTANT-\w+ (\S+)', txt, re.M)[:8]}
+d['coverage']['benign_refactors'] = {'applied': len(re.findall(r'^BENIGN-(QUIET|ALARM)', btxt, re.M)), 'quiet': len(re.findall(r'^BENIGN-QUIET', btxt, re.M)),
+                                     'alarming': re.findall(r'^BENIGN-ALARM (\S+)', btxt, re.M), 'stale_skipped': len(re.findall(r'^BENIGN-STALE', btxt, re.M))}
 json.dump(d, open(p, 'w'), indent=1)
 PY
-rm -f "$log"
+rm -f "$log" "$blog"
 exit $st
